@@ -250,3 +250,40 @@ fn c19_uboolvec() {
         assert!(b[e.pos] > 1, "C19: error position is not an offending byte");
     }
 }
+
+/// R3 companion: `Error::offset` (a `mut self` method Verus cannot host) adds the offset and keeps the kind.
+/// Loop-free, full domain: complete.
+#[kani::proof]
+fn c19_error_offset() {
+    let pos: usize = kani::any();
+    let off: usize = kani::any();
+    kani::assume(pos <= usize::MAX - off); // the caller's obligation in the Verus contract
+    let k: u8 = kani::any();
+    kani::assume(k < 5);
+    let kind = match k { 0 => ErrorKind::InsufficientSize, 1 => ErrorKind::BadAlign, 2 => ErrorKind::InvalidEnumTag, 3 => ErrorKind::InvalidData, _ => ErrorKind::Other };
+    let e = flatty::Error { kind: kind.clone(), pos }.offset(off);
+    assert!(e.pos == pos + off, "C19: Error::offset does not add the offset");
+    assert!(e.kind == kind, "C19: Error::offset changes the kind");
+}
+
+/// D10: a vector of zero-sized items must not divide by zero while it is validated / mapped (every length, every content)
+#[kani::proof]
+#[kani::unwind(6)]
+fn c01_vec_zst() {
+    const N: usize = 4;
+    let (len, off) = any_len_off(N, 1);
+    let b = sym_slice(len, 1, off, N);
+    // BOUNDED: stored length <= 4 (the element loop runs `len` times; zero-sized items always fit)
+    if len >= 1 { kani::assume(b[0] <= 4); }
+    let r = FlatVec::<(), u8>::from_bytes(b);
+    if len < 1 {
+        assert!(matches!(r, Err(ref e) if e.kind == ErrorKind::InsufficientSize), "C02,C06: short input must be InsufficientSize");
+    } else {
+        // zero-sized items take no space: every length fits
+        assert!(r.is_ok(), "C02: well-formed encoding rejected");
+        let v = r.unwrap();
+        assert!(v.len() == b[0] as usize, "C02: len() differs from the reference decoding");
+        assert!(v.len() <= v.capacity(), "C02: len > capacity in an accepted view");
+        assert!(v.size() <= len, "C05: size() exceeds the mapped bytes");
+    }
+}
